@@ -169,3 +169,77 @@ M('C12-n-isabs', 'C12', F_BUILD,
   "        if b'./' in require_path or require_path.startswith(b'/'):\n",
   "        if b'./' in require_path or os.path.isabs(require_path_str):\n",
   kind='neutral')
+
+# ---------------------------------------------------------------- C13 ----
+M('C13-always-gfx', 'C13', F_BUILD,
+  "                setattr(result, section, getattr(source, section))\n",
+  "                setattr(result, section, getattr(source, 'gfx'))\n",
+  expect='R-C13-select')
+M('C13-empty-from-result', 'C13', F_BUILD,
+  "            setattr(result, section, getattr(empty_source, section))\n",
+  "            setattr(result, section, getattr(result, section))\n",
+  expect='R-C13-select')
+M('C13-swap-branches', 'C13', F_BUILD,
+  "        elif getattr(args, 'empty_' + section, False):\n"
+  "            setattr(result, section, getattr(empty_source, section))\n",
+  "        else:\n"
+  "            setattr(result, section, getattr(empty_source, section))\n",
+  expect='R-C13-select')
+M('C13-drop-conflict-test', 'C13', F_BUILD,
+  "            if getattr(args, 'empty_' + section, False):\n"
+  "                util.error('Cannot specify --%s and --empty-%s args '\n"
+  "                           'together.' % (section, section))\n"
+  "                return 1\n",
+  "", expect='R-C13-fail')
+M('C13-write-in-loop', 'C13', F_BUILD,
+  "                source = file.from_file(fn)\n"
+  "                setattr(result, section, getattr(source, section))\n",
+  "                source = file.from_file(fn)\n"
+  "                setattr(result, section, getattr(source, section))\n"
+  "                file.to_file(result, filename=args.filename)\n",
+  expect='R-C13-fail')
+M('C13-missing-empty-sfx', 'C13', F_TOOL,
+  "    sp_build.add_argument(\n"
+  "        '--empty-sfx', action='store_true',\n"
+  "        help='use an empty sfx region (overrides default)')\n",
+  "", expect='R-C13-sections')
+M('C13-loop-misses-music', 'C13', F_BUILD,
+  "    for section in ('lua', 'gfx', 'gff', 'map', 'sfx', 'music'):\n",
+  "    for section in ('lua', 'gfx', 'gff', 'map', 'sfx'):\n",
+  expect='R-C13-sections')
+M('C13-result-always-empty', 'C13', F_BUILD,
+  "    if os.path.exists(args.filename):\n"
+  "        result = file.from_file(args.filename)\n"
+  "    else:\n"
+  "        result = game.Game.make_empty_game(filename=args.filename)\n",
+  "    result = game.Game.make_empty_game(filename=args.filename)\n",
+  expect='R-C13-select')
+M('C13-source-loaded-from-out', 'C13', F_BUILD,
+  "                source = file.from_file(fn)\n",
+  "                source = file.from_file(args.filename)\n",
+  expect='R-C13-select')
+M('C13-error-after-write', 'C13', F_BUILD,
+  "        lua_writer_args=lua_writer_args)\n\n    return 0\n",
+  "        lua_writer_args=lua_writer_args)\n"
+  "    if getattr(args, 'optimize_tokens', False):\n"
+  "        return 1\n\n    return 0\n",
+  expect='R-C13-fail')
+M('C13-missing-is-warning', 'C13', F_BUILD,
+  "                util.error('File \"%s\" given for --%s arg does not exist.' %\n"
+  "                           (fn, section))\n"
+  "                return 1\n",
+  "                util.error('File \"%s\" given for --%s arg does not exist.' %\n"
+  "                           (fn, section))\n"
+  "                continue\n",
+  expect='R-C13-fail')
+M('C13-n-hoist-getattr', 'C13', F_BUILD,
+  "        elif getattr(args, 'empty_' + section, False):\n"
+  "            setattr(result, section, getattr(empty_source, section))\n",
+  "        elif getattr(args, 'empty_' + section, False):\n"
+  "            empty_val = getattr(empty_source, section)\n"
+  "            setattr(result, section, empty_val)\n",
+  kind='neutral')
+M('C13-n-list-sections', 'C13', F_BUILD,
+  "    for section in ('lua', 'gfx', 'gff', 'map', 'sfx', 'music'):\n",
+  "    for section in ['music', 'lua', 'gfx', 'gff', 'map', 'sfx']:\n",
+  kind='neutral')
